@@ -616,7 +616,7 @@ func (root *Root) resolveField(
 		field.ConType = t
 		ea = append(ea, field.sortArgs()...)
 	} else {
-		ea = append(ea, field.undeclaredArgs()...)
+		ea = append(ea, field.undeclaredArgs(t)...)
 	}
 	if 0 < len(ea) {
 		Errors(ea).in(field.key())
